@@ -602,13 +602,17 @@ func (r *Runner) cmd(ctx context.Context, cm syntax.Command) {
 		for !r.stop(ctx) {
 			oldNoErrExit := r.noErrExit
 			r.noErrExit = true
-			r.stmts(ctx, cm.Cond)
-			r.noErrExit = oldNoErrExit
 			// A break or continue in the condition acts on this loop as well.
+			oldInLoop := r.inLoop
+			r.inLoop = true
+			r.stmts(ctx, cm.Cond)
+			r.inLoop = oldInLoop
+			r.noErrExit = oldNoErrExit
 			if r.contnEnclosing > 0 {
-				if r.contnEnclosing--; r.contnEnclosing > 0 {
+				if r.contnEnclosing--; r.contnEnclosing > 0 && oldInLoop {
 					break
 				}
+				r.contnEnclosing = 0
 				continue
 			}
 			if r.breakEnclosing > 0 {
